@@ -153,7 +153,48 @@ def rng_vmap(c):
   return {'impl': safe(impl), 'ref': safe(ref)}
 
 
+class Holder(nnx.Module):
+  def __init__(self, v):
+    self.v = v
+
+
+def bare_alias():
+  """one Variable reached under two different axis specifications, at least once as a bare Variable argument / output: every case must be rejected"""
+  fresh = lambda: nnx.Param(jnp.arange(3.0))
+  def c1():
+    v = fresh()
+    return nnx.vmap(lambda a, b: a.value + b.value, in_axes=(0, None))(v, v)
+  def c2():
+    v = fresh()
+    return nnx.vmap(lambda m, b: m.v.value + b.value, in_axes=(0, None))(Holder(v), v)
+  def c3():
+    v = fresh()
+    return nnx.vmap(lambda m, b: m.v.value + b.value, in_axes=(nnx.StateAxes({nnx.Param: None}), 0), axis_size=3)(Holder(v), v)
+  def c4():
+    return nnx.vmap(lambda a: a, in_axes=0, out_axes=1)(nnx.Param(jnp.ones((3, 2)))).value
+  def c5():
+    v = fresh()
+    return nnx.scan(lambda a, b: a.value + b.value, in_axes=(0, None), out_axes=0)(v, v)
+  def c6():
+    p = nnx.Param(jnp.array(2.0))
+    return nnx.grad(lambda a, b: a.value * b.value, argnums=0)(p, p).value
+  def c7():
+    m = Holder(fresh())
+    return nnx.vmap(lambda a, b: a.v.value + b.v.value, in_axes=(0, None))(m, m)
+  out = {}
+  for name, fn in (('vmap(in_axes=(0, None))(v, v)', c1), ('vmap(in_axes=(0, None))(Holder(v), v)', c2), ('vmap(in_axes=(StateAxes({Param: None}), 0))(Holder(v), v)', c3),
+                   ('vmap(lambda v: v, in_axes=0, out_axes=1)(v)', c4), ('scan(in_axes=(0, None))(v, v)', c5), ('grad(argnums=0)(p, p)', c6), ('vmap(in_axes=(0, None))(m, m)', c7)):
+    r = safe(lambda: np.asarray(fn()).tolist())
+    out[name] = r
+  # consistent aliasing of a bare Variable stays accepted
+  v = fresh()
+  out['_consistent'] = safe(lambda: np.asarray(nnx.vmap(lambda a, b: a.value + b.value, in_axes=(0, 0))(v, v)).tolist())
+  return out
+
+
 def main(payload):
+  if payload.get('bare_alias'):
+    return {'bare_alias': bare_alias()}
   return {'alias': [alias_grad(c) for c in payload.get('alias', [])], 'rng': [rng_vmap(c) for c in payload.get('rng', [])]}
 
 
